@@ -198,16 +198,19 @@ func checkChangeConflictExclusiveKinds(st *state.State, newExclusiveChangeKind, 
 			if ignoreChangeID != "" && chg.ID() == ignoreChangeID {
 				continue
 			}
-			if downgrading, err := changeIsSnapdDowngrade(st, chg); err != nil {
+			downgrading, err := changeIsSnapdDowngrade(st, chg)
+			if err != nil {
 				return err
-			} else if !downgrading {
-				continue
 			}
-			return &ChangeConflictError{
-				Message:    "snapd downgrade in progress, no other changes allowed until this is done",
-				ChangeKind: chg.Kind(),
-				ChangeID:   chg.ID(),
+			if downgrading {
+				return &ChangeConflictError{
+					Message:    "snapd downgrade in progress, no other changes allowed until this is done",
+					ChangeKind: chg.Kind(),
+					ChangeID:   chg.ID(),
+				}
 			}
+			// otherwise it is a change like any other
+			fallthrough
 		default:
 			if newExclusiveChangeKind != "" {
 				// we want to run a new exclusive change, but other
